@@ -219,9 +219,37 @@ fn calculate_selection<'a>(
                         }
                     }
 
+                    // The struct is shared by all the selections on this variant.
+                    let shared_struct = variant_selections.len() > 1;
+
                     for (_selection_id, selection, variant_selection) in variant_selections {
-                        match variant_selection {
-                            VariantSelection::InlineFragment(_) => {
+                        let spread = match variant_selection {
+                            VariantSelection::FragmentSpread((fragment_id, fragment)) => {
+                                Some((*fragment_id, *fragment))
+                            }
+                            // `... on Variant { ...Fragment }` next to other selections on the
+                            // variant: the fragment is one more flattened member of the shared
+                            // struct (on its own, the selection makes the struct an alias of the
+                            // fragment, which would discard the other members).
+                            VariantSelection::InlineFragment(_) if shared_struct => {
+                                match selection.subselection() {
+                                    [only] => match context.query.query.get_selection(*only) {
+                                        Selection::FragmentSpread(fragment_id) => {
+                                            let fragment =
+                                                context.query.query.get_fragment(*fragment_id);
+                                            (fragment.on == *variant_type_id)
+                                                .then_some((*fragment_id, fragment))
+                                        }
+                                        _ => None,
+                                    },
+                                    _ => None,
+                                }
+                            }
+                            VariantSelection::InlineFragment(_) => None,
+                        };
+
+                        match spread {
+                            None => {
                                 calculate_selection(
                                     context,
                                     selection.subselection(),
@@ -230,17 +258,16 @@ fn calculate_selection<'a>(
                                     options,
                                 );
                             }
-                            VariantSelection::FragmentSpread((fragment_id, fragment)) => context
-                                .push_field(ExpandedField {
-                                    field_type: fragment.name.as_str().into(),
-                                    field_type_qualifiers: &[GraphqlTypeQualifier::Required],
-                                    flatten: true,
-                                    graphql_name: None,
-                                    rust_name: fragment.name.to_snake_case().into(),
-                                    struct_id,
-                                    deprecation: None,
-                                    boxed: fragment_is_recursive(*fragment_id, context.query.query),
-                                }),
+                            Some((fragment_id, fragment)) => context.push_field(ExpandedField {
+                                field_type: fragment.name.as_str().into(),
+                                field_type_qualifiers: &[GraphqlTypeQualifier::Required],
+                                flatten: true,
+                                graphql_name: None,
+                                rust_name: fragment.name.to_snake_case().into(),
+                                struct_id,
+                                deprecation: None,
+                                boxed: fragment_is_recursive(fragment_id, context.query.query),
+                            }),
                         }
                     }
                 } else {
